@@ -10,7 +10,7 @@ import common as C          # noqa: E402
 import chem                 # noqa: E402
 
 PROP = "C04"
-DEPS = ["Spec/Smiles.v", "Spec/Iso.v", "Spec/Graft.v", "Spec/Modify.v", "Gen/Tables.v", "Gen/Grammar.v"]
+DEPS = ["Spec/Smiles.v", "Spec/Iso.v", "Spec/Graft.v", "Spec/Modify.v", "Spec/Acyl.v", "Model/PolyCarbon.v", "Proofs/AcylThm.v", "Proofs/PolyCarbonThm.v", "Gen/Tables.v", "Gen/Grammar.v"]
 
 # sugars with the positions that bear a free hydroxyl (or amine)
 SUGARS = {"Glc": [2, 3, 4, 6], "Gal": [2, 3, 4, 6], "Man": [2, 3, 4, 6], "Fuc": [2, 3, 4], "Rha": [2, 3, 4], "Xyl": [2, 3, 4], "Ara": [2, 3, 4],
@@ -196,6 +196,37 @@ def run(tier):
             report.fail({"site": "reactor", "kind": "wrong-molecule", "token": "carbon-notation", "conjugated": conj},
                         {"input": nm, "observed": o, "unmodified": b, "group_by_Spec_Acyl": frag, "position": p_, "verdict": v,
                          "problem": "the result is not the unmodified sugar whose position carries the fatty acyl group the carbon notation stands for (chain length, branch, position and cis/trans geometry of the double bonds)"})
+    # correspondence of Model/PolyCarbon.v with SMILESReaktor.parse_poly_carbon: the same names, the same text (or both fail)
+    pc_names = set(f"{p_}{tok}" for nm, s_, p_, tok, frag, conj, n9 in acyl_cases)
+    for _ in range(150 if tier == "quick" else 3000):
+        n_c = r.randint(4, 40)
+        pre = r.choice(["", "", "", "i", "ai", "a"])
+        grp = []
+        for _g in range(r.choice([0, 1, 1, 1, 2, 3])):
+            kind = r.choice(["=", "=", "=", "c"])
+            idx = []
+            for _i in range(r.randint(0, 4) if r.random() < 0.1 else r.randint(1, 3)):
+                q_ = r.randint(2, n_c + 3)
+                idx.append((r.choice(["c", "t", "", ""]) if kind == "=" else "") + str(q_))
+            if r.random() < 0.03:
+                idx.append(r.choice(["x", "c", "t", "9a", ""]))
+            if r.random() < 0.5:
+                idx.sort(key=lambda x_: int("".join(ch for ch in x_ if ch.isdigit()) or 0))
+            grp.append(kind + "{" + ",".join(idx) + "}")
+        pc_names.add(f"{r.randint(1, 9)}{pre}C{n_c}{''.join(grp)}")
+    pc_names = sorted(pc_names)
+    pc_out = C.run_impl_parallel("poly_carbon", pc_names)
+    stats["poly_carbon_names"], stats["poly_carbon_both_fail"] = len(pc_names), 0
+    for nm, o in zip(pc_names, pc_out):
+        mv = orc.drv.call("polycarbon", nm)
+        if mv == "NONE" and o["text"] is None:
+            stats["poly_carbon_both_fail"] += 1
+            continue
+        if mv == "NONE" or o["text"] is None or mv[1:] != o["text"]:
+            report.fail({"site": "correspondence", "kind": "poly-carbon-model-differs"},
+                        {"name": nm, "model": None if mv == "NONE" else mv[1:], "implementation": o["text"], "exception": o["exc"],
+                         "what_no_longer_checks": "Model/PolyCarbon.v = SMILESReaktor.parse_poly_carbon (string equality); theorem C04_poly_carbon_is_the_designation_bounded speaks about the model",
+                         "problem": "the model of parse_poly_carbon and the implementation give different texts for this name"})
     # the long notation  <p>-O-<group>-<Sugar> / <p>-N-<group>-<Sugar>  names the same molecule as the compact token for
     # every group that is carried by (or shares) the position's oxygen / nitrogen
     fgs = {x.split("\x1e")[0]: x.split("\x1e")[1] for x in orc.drv.call("fgtokens").split("\x1f") if x and "\x1e" in x}
